@@ -6,7 +6,7 @@ For every `op` line it prints
   M <out> | ...
   C <out> | ...
   S <out> <relax>      or   S none      (`Spec`; `none` from the first op outside the fragment on)
-with <relax> one of `-`, `s8eof` (value unspecified), `tail` (partial item unspecified). -/
+with <relax> one of `-`, `tail` (bytes of a partial trailing item unspecified). -/
 open Xmp Xmp.Stream
 
 def hexVal (c : Char) : Nat :=
@@ -138,7 +138,6 @@ partial def loop (h : IO.FS.Stream) (cs : Case) : IO Unit := do
           | none => IO.println "S none"; pure none
           | some (so, s') =>
             let relax := match o, so with
-              | .word .s8, _ => if cs.bytes.length < s.pos + 1 then "s8eof" else "-"
               | _, .data _ _ _ => "tail"
               | _, _ => "-"
             IO.println s!"S {showOut so} {relax}"
